@@ -467,7 +467,7 @@ example :
 
 /-- regenerated call order of `spendAccount`: sign, `UpdateAccount`, then `maybeBroadcastTx`; the multi-sig
 branch of `HandleAccountSpend` completes the batch before resuming; the funding clause writes after
-`SendOutputs` and the recovery clause never reaches `SendOutputs` without `createTx` -/
+`SendOutputs` and the recovery clause never reaches `SendOutputs` unless the look-up found nothing (`[notLocated]`) -/
 theorem C08_I3_call_order :
     -- sign, then write, then publish – and nothing is published before the write
     callsBefore Lifecycle.spendAccountCalls "signSpendTx" "UpdateAccount" = true ∧
